@@ -816,14 +816,18 @@ func (w *world) nodeOp(r *xp.Req, resp *xp.Resp) {
 		resp.Chunks = fs.chunks
 		resp.Emitted = int(h.fs.RocksDBStore.LastWALSequenceNumber())
 	case "node-close":
+		bound := 30
+		if r.N > 0 {
+			bound = int(r.N)
+		}
 		done := make(chan error, 1)
 		go func() { done <- n.Close(r.Wait) }()
 		select {
 		case err := <-done:
 			resp.Err = errStr(err)
 			delete(w.nodes, r.Name)
-		case <-time.After(30 * time.Second):
-			resp.Err = "close did not return within 30 s"
+		case <-time.After(time.Duration(bound) * time.Second):
+			resp.Err = fmt.Sprintf("close did not return within %d s", bound)
 			resp.ErrKind = "hang"
 		}
 	default:
